@@ -289,6 +289,28 @@ def canon(v: Any) -> Any:
     return ["py", cls.__name__, repr(v)]
 
 
+# build.PRELUDE's VerObj, source / target of the field-level conversions of a `fconv` field
+VEROBJ_CD = {"name": "VerObj", "flavor": "dataclass", "fields": [{"n": "a", "t": {"k": "int"}}, {"n": "b", "t": {"k": "int"}, "default": {"c": ["int", 0]}}]}
+VEROBJ_T = {"k": "cls", "i": -1, "cd": VEROBJ_CD}
+
+
+def fconv_type(t: dict) -> dict:
+    """Type of a field carrying conversion(deserialization=ver_from_obj, serialization=ver_to_obj): every Ver
+    it reaches (through containers and unions, not through objects) goes through VerObj."""
+    if t["k"] == "std" and t["t"] == "ver":
+        return dict(t, via="obj")
+    if t["k"] == "cls":
+        return t
+    out = dict(t)
+    for key in ("of", "key", "val"):
+        if isinstance(out.get(key), dict):
+            out[key] = fconv_type(out[key])
+    for key in ("alts", "items"):
+        if key in out:
+            out[key] = [fconv_type(x) for x in out[key]]
+    return out
+
+
 LEAF_VALIDATORS = {
     "not13": (lambda v: v[0] in ("int", "float") and v[1] == 13, "unlucky 13"),
     "not_abc": (lambda v: v == ["str", "abc"], "no abc"),
@@ -586,6 +608,12 @@ class Model:
             if msgs:
                 return None, Err(msgs)
             return canon_json(d), None
+        if k == "std" and t["t"] == "ver" and t.get("via") == "obj":
+            # field-level conversion VerObj <-> Ver (build.PRELUDE): the datum follows the object rules of VerObj
+            v, e = self._object(VEROBJ_T, d, c)
+            if e:
+                return None, e
+            return ["std", "ver", f"{v[2]['a'][1]}.{v[2]['b'][1]}"], None
         if k == "std" and t["t"] == "ver":
             raise Unspecified("type with several deserializers")
         if k == "std":
@@ -788,10 +816,12 @@ class Model:
         t = f["t"]
         if f.get("none_as_undefined"):
             t = remove_none(t)
+        if f.get("fconv"):
+            t = fconv_type(t)
         return t
 
     def _object(self, t: dict, d: Any, c) -> Tuple[Any, Optional[Err]]:
-        cd = self.prog["classes"][t["i"]]
+        cd = t["cd"] if "cd" in t else self.prog["classes"][t["i"]]
         if cd is None:
             raise Unspecified("class under construction")
         if t.get("args"):
@@ -1125,6 +1155,9 @@ def _ser(self, t: dict, v, top=False):
     if k == "std":
         if tag != "std" or v[1] != t["t"]:
             raise Mismatch
+        if t.get("via") == "obj":
+            a, b_ = v[2].split(".")
+            return self.ser_object(VEROBJ_T, ["obj", "VerObj", {"a": ["int", int(a)], "b": ["int", int(b_)]}])
         return v[2]
     if k == "none":
         if tag != "none":
@@ -1229,7 +1262,7 @@ def _ser_any(self, v):
 
 def _ser_object(self, t: dict, v):
     prog, o = self.prog, self.so
-    cd = prog["classes"][t["i"]]
+    cd = t["cd"] if "cd" in t else prog["classes"][t["i"]]
     if t.get("args"):
         cd = specialize(cd, t["args"])
     td = cd["flavor"] == "typeddict"
@@ -1274,6 +1307,8 @@ def _ser_object(self, t: dict, v):
             raise Unspecified("exclude_none on a non-Optional field holding None")
         agg = f.get("agg")
         ft = remove_none(ftype) if f.get("none_as_undefined") else ftype
+        if f.get("fconv"):
+            ft = fconv_type(ft)
         if agg is None:
             out[ext_name(f, cd, o.aliaser)] = self.ser(ft, val)
         else:
